@@ -70,3 +70,23 @@ package types
 //@   ensures err == nil ==> k.KeyType == et_id(tagof(etype))
 //@   ensures err == nil && tagof(etype) != typeid("crypto.Aes256CtsHmacSha384192") ==> len(k.KeyValue) == et_protokeybytes(tagof(etype))
 //@   ensures err == nil && tagof(etype) == typeid("crypto.Aes256CtsHmacSha384192") ==> len(k.KeyValue) == 32
+
+// Decoders of the string-to-key PA-DATA (trusted: reflection-driven ASN.1 codec); the first entry is named by
+// uninterpreted functions of the encoding so that GetKeyFromPassword's choice can be stated (property C08).
+//@ func (*types.ETypeInfo2).Unmarshal(a, b) (err)
+//@   modifies *a
+//@   trusted ASN.1 decoder
+//@   ensures err == nil ==> len(*a) == eti2_n(bytes(b))
+//@   ensures err == nil && len(*a) >= 1 ==> (*a)[0].EType == eti2_etype(bytes(b)) && bytes((*a)[0].Salt) == eti2_salt(bytes(b)) && bytes((*a)[0].S2KParams) == eti2_s2kp(bytes(b))
+//@ func (*types.ETypeInfo).Unmarshal(a, b) (err)
+//@   modifies *a
+//@   trusted ASN.1 decoder
+//@   ensures err == nil ==> len(*a) == eti_n(bytes(b))
+//@   ensures err == nil && len(*a) >= 1 ==> (*a)[0].EType == eti_etype(bytes(b)) && bytes((*a)[0].Salt) == eti_salt(bytes(b))
+
+//@ ghost defaultSalt Seq
+//@ func (types.PrincipalName).GetSalt(pn, realm) (r)
+//@   pure
+//@   trusted_frame appends into a buffer of its own
+//@   sets defaultSalt := bytes(r)
+//@   loop 1 invariant -1 <= rangeindex && rangeindex < len(pn.NameString)
